@@ -230,13 +230,18 @@ def run_spectrum(inp):
     M = G.fm(inp["M"])
     ev, evec = np.linalg.eig(M.T)
     out = {"ev_re": np.real(ev).tolist(), "ev_im": np.imag(ev).tolist()}
-    # Minkowski norm of the eigenvector from_reflection will pick (np.argmin of the real parts), after normalize
-    v = np.real(evec[:, int(np.argmin(np.real(ev)))])
+    # Minkowski norm of the eigenvector from_reflection will pick (np.argmin of the real parts of the
+    # representative of non-negative trace), after normalize
+    sgn = -1.0 if np.trace(M) < 0 else 1.0
+    v = np.real(evec[:, int(np.argmin(sgn * np.real(ev)))])
     nv = float(G.mink(v, v))
     out["vnorm"] = 0.0 if abs(nv) < 1e-300 else nv / abs(nv)
     try:
         Hp = H.Hyperplane.from_reflection(H.Isometry(M.copy()))
         out["accepted"] = True
+        # the documented bare-array input is read like Isometry(array)
+        Hq = H.Hyperplane.from_reflection(M.copy())
+        out["array_normal"] = np.array(Hq.spacelike_vector, dtype=float).tolist()
         out["normal"] = np.array(Hp.spacelike_vector, dtype=float).tolist()
     except GeometryError:
         out["accepted"] = False
@@ -256,7 +261,7 @@ def judge_spectrum(inp, obs, lr):
     e = drv_err(lr)
     if e:
         return e
-    isrefl = inp["kind"] == "refl"
+    isrefl = inp["kind"] in ("refl", "neg_refl")      # R and -R are the same reflection
     if obs["accepted"] != isrefl:
         # a parabolic-times-reflection has the spectrum of a reflection; it is not generated here
         return {"expected": "accepted iff reflection", "observed": obs["accepted"], "tags": tags, "property_failure": True}
@@ -270,8 +275,13 @@ def judge_spectrum(inp, obs, lr):
         # the recovered normal is the (-1)-eigenvector chosen by argmin, and is fixed up to sign by R
         M = G.fm(inp["M"])
         v = np.array(obs["normal"])
-        if np.abs(v @ M + v).max() > 1e-8:
-            return {"expected": "normal is a (-1)-eigenvector", "observed": v.tolist(), "tags": tags, "property_failure": True}
+        sg = -1.0 if inp["kind"] == "neg_refl" else 1.0
+        if np.abs(v @ M + sg * v).max() > 1e-8:
+            return {"expected": "normal is a (-1)-eigenvector of the reflection", "observed": v.tolist(), "tags": tags, "property_failure": True}
+        w = np.array(obs["array_normal"])
+        if min(np.abs(w - v).max(), np.abs(w + v).max()) > 1e-8:
+            return {"expected": {"same wall from the bare array": v.tolist()}, "observed": w.tolist(),
+                    "tags": dict(tags, input="ndarray"), "property_failure": True}
     return None
 
 
@@ -282,6 +292,8 @@ def gen_fix(rng, n):
         g = G.rat_iso(rng, dim)
         L = std_iso(rng, dim, kind)
         M = G.matmulF(G.matmulF(G.invF(g), L), g)
+        if rng.random() < 0.3:
+            M = [[-x for x in r] for r in M]          # the other projective representative
         yield {"dim": dim, "kind": kind, "M": [G.qv(r) for r in M], "g": [G.qv(r) for r in g]}
 
 
@@ -300,14 +312,16 @@ def run_fix(inp):
         order.append(hits)
     # the refined fixed vectors: real columns with eigenvalue set to exactly 1 that are fixed by M
     n = len(ev)
-    cand = [k for k in range(n) if ev[k] == 1 and np.abs(np.imag(evec[:, k])).max() == 0.0]
+    cand = [k for k in range(n) if ev[k] in (1, -1) and np.abs(np.imag(evec[:, k])).max() == 0.0]
+    lam = np.array([float(np.real(ev[k])) for k in cand])
     B = np.real(evec[:, cand]).T if cand else np.zeros((0, n))
     gram = B @ G.J(inp["dim"]) @ B.T if cand else np.zeros((0, 0))
-    kdim = int(np.sum(np.linalg.svd(M.T - np.eye(n), compute_uv=False) < 1e-8))   # independent computation
+    kdim = int(np.sum(np.linalg.svd(M.T - np.eye(n), compute_uv=False) < 1e-8)
+               + np.sum(np.linalg.svd(M.T + np.eye(n), compute_uv=False) < 1e-8))   # independent computation
     return {"abs": np.abs(ev).tolist(), "absim": np.abs(np.imag(ev)).tolist(), "norm_re": np.real(norms).tolist(),
             "norm_im": np.imag(norms).tolist(), "order": order,
             "refine": {"count": len(cand), "kdim": kdim,
-                       "fixed": float(np.abs(B @ M - B).max()) if cand else 0.0,
+                       "fixed": float(np.abs(B @ M - lam[:, None] * B).max()) if cand else 0.0,
                        "offdiag": float(np.abs(gram - np.diag(np.diag(gram))).max()) if cand else 0.0,
                        "min_norm": float(np.min(np.diag(gram))) if cand else None,
                        "rank": int(np.linalg.matrix_rank(B, tol=1e-8)) if cand else 0}}
@@ -364,14 +378,20 @@ def gen_o_reflect(rng, n):
             ds = [x for x in ds if G.mink(np.array(x), np.array(x)) > 0.2]
             if len(ds) < dim + 1:
                 shape, ds = [], [[0.1, 1.0, 0.3] + [0.0] * (dim - 2)]
+        ipack = None
+        if rng.random() < 0.25:
+            # integral normals in every packaging of the data (integer arrays, nested lists of ints, float32)
+            ds = [[float(x) for x in G.int_spacelike(rng, dim)] for _ in ds]
+            ipack = rng.choice(G.DATA_PACKS)
         yield {"dim": dim, "shape": shape, "d": ds, "w": [rng.gauss(0, 1) for _ in range(dim + 1)],
-               "normals_only": rng.random() < 0.7}
+               "normals_only": rng.random() < 0.7, "ipack": ipack}
 
 
 def run_o_reflect(inp):
     dim, shape = inp["dim"], tuple(inp["shape"])
     d = np.array(inp["d"]).reshape(shape + (dim + 1,))
-    Hp = H.Hyperplane(d.copy(), normals_only=True) if inp.get("normals_only") else H.Hyperplane(d.copy())
+    arg = G.pack_data(d, inp["ipack"]) if inp.get("ipack") else d.copy()
+    Hp = H.Hyperplane(arg, normals_only=True) if inp.get("normals_only") else H.Hyperplane(arg)
     out = {"shape_ok": list(Hp.shape) == list(shape)}
     if not out["shape_ok"]:
         out["shape"] = list(Hp.proj_data.shape)
@@ -414,32 +434,36 @@ def judge_o_reflect(inp, obs, lr):
     # without the keyword an array of exactly n+1 normals is (documented) read as one hyperplane's data
     square = bool(inp["shape"]) and inp["shape"][-1] == inp["dim"] + 1 and not inp.get("normals_only")
     tags = {"composite": bool(inp["shape"]), "dim": inp["dim"], "square_shape": square, "call_site": "Hyperplane.__init__",
-            "normals_only": bool(inp.get("normals_only"))}
+            "normals_only": bool(inp.get("normals_only")), "data_pack": inp.get("ipack") or "float64"}
     if "exc" in obs:
         return {"expected": "hyperplane(s) and reflection(s)", "observed": obs, "tags": dict(tags, exc=obs["exc"])}
     if not obs["shape_ok"]:
         return {"expected": {"one hyperplane per normal, shape": inp["shape"]}, "observed": obs.get("shape"), "tags": dict(tags, what="shape")}
-    t = 1e-8
+    f = 1e4 if inp.get("ipack") == "float32" else 1.0       # float32 data carries 6e-8 relative error
+    t = 1e-8 * f
     if not (obs["invol"] <= t and obs["form"] <= t):
         return {"expected": "involutive isometry", "observed": obs, "tags": dict(tags, what="involution")}
-    if not all(abs(x + 1) <= 1e-8 for x in obs["det"]):
+    if not all(abs(x + 1) <= 1e-8 * f for x in obs["det"]):
         return {"expected": "orientation reversing (det -1)", "observed": obs["det"], "tags": dict(tags, what="det")}
     if not obs["normal"] <= t:
         return {"expected": "normal negated", "observed": obs["normal"], "tags": dict(tags, what="normal")}
-    if not (obs["ideal_null"] <= 1e-7 and obs["ideal_fixed"] <= 1e-7 and obs["wall_fixed"] <= 1e-7):
+    if not (obs["ideal_null"] <= 1e-7 * f and obs["ideal_fixed"] <= 1e-7 * f and obs["wall_fixed"] <= 1e-7 * f):
         return {"expected": "wall fixed pointwise", "observed": obs, "tags": dict(tags, what="wall")}
-    if not (obs["rt_shape"] and obs["rt_normal"] <= 1e-7 and obs["rt_ideal"] <= 1e-7 and obs["rt_refl"] <= 1e-7 and obs.get("geo", 0) <= 1e-7):
+    if not (obs["rt_shape"] and obs["rt_normal"] <= 1e-7 * f and obs["rt_ideal"] <= 1e-7 * f and obs["rt_refl"] <= 1e-7 * f and obs.get("geo", 0) <= 1e-7 * f):
         return {"expected": "from_reflection(reflection_across(H)) = H", "observed": obs, "tags": dict(tags, what="roundtrip")}
     return None
 
 
 def gen_o_nonrefl(rng, n):
     for _ in range(n):
-        dim = rng.choice([2, 2, 3, 4])
+        # every dimension up to 6: which involutions are reflections depends on the parity and size of the dimension
+        dim = rng.choice([2, 2, 3, 4, 5, 6])
         kind = rng.choice(["rot", "lox", "par", "refl_lox", "two_refl", "id", "refl_rot", "refl", "refl",
-                           "point_refl_neg", "neg_refl", "neg_id", "half_turn"])
+                           "point_refl_neg", "neg_refl", "neg_id", "half_turn", "three_refl", "neg_three_refl"])
         if kind == "refl_rot" and dim < 3:
             kind = "rot"
+        if kind in ("three_refl", "neg_three_refl") and dim < 3:
+            kind = "two_refl"
         yield {"dim": dim, "kind": kind, "g": G.float_iso(rng, dim).tolist(), "a": rng.uniform(0.3, 2.8), "t": rng.uniform(0.3, 3.0) * rng.choice([-1, 1])}
 
 
@@ -474,9 +498,18 @@ def float_std(dim, kind, a, t):
         L[1, 1] = 1
     elif kind == "neg_id":
         L = -L
+    elif kind == "screw":          # translation along the (x0,x1) axis times a rotation about it (dim >= 3): no eigenvalue 1
+        L[0, 0], L[0, 1], L[1, 0], L[1, 1] = math.cosh(t), math.sinh(t), math.sinh(t), math.cosh(t)
+        L[2, 2], L[2, 3], L[3, 2], L[3, 3] = math.cos(a), math.sin(a), -math.sin(a), math.cos(a)
     elif kind == "half_turn":      # rotation by pi about a codimension-2 subspace
         L[1, 1] = -1
         L[2, 2] = -1
+    elif kind in ("three_refl", "neg_three_refl"):
+        # product of three commuting reflections (dim >= 3; neither representative is a reflection):
+        # an orientation-reversing involution that is not a reflection
+        L[1, 1] = L[2, 2] = L[3, 3] = -1
+        if kind == "neg_three_refl":
+            L = -L
     return L
 
 
@@ -484,11 +517,18 @@ def run_o_nonrefl(inp):
     g = np.array(inp["g"])
     L = float_std(inp["dim"], inp["kind"], inp["a"], inp["t"])
     M = np.linalg.inv(g) @ L @ g
+    normal = arr_normal = None
     try:
-        H.Hyperplane.from_reflection(H.Isometry(M.copy()))
+        normal = np.array(H.Hyperplane.from_reflection(H.Isometry(M.copy())).spacelike_vector, dtype=float).tolist()
         acc = True
     except GeometryError:
         acc = False
+    try:
+        # the documented bare-array input, read like Isometry(array)
+        arr_normal = np.array(H.Hyperplane.from_reflection(M.copy()).spacelike_vector, dtype=float).tolist()
+        acc_arr = True
+    except GeometryError:
+        acc_arr = False
     acc_g = None
     if inp["dim"] == 2:
         try:
@@ -503,16 +543,27 @@ def run_o_nonrefl(inp):
             wrongdim = "accepted"
         except GeometryError:
             wrongdim = "GeometryError"
-    return {"accepted": acc, "accepted_geodesic": acc_g, "wrongdim": wrongdim}
+    return {"accepted": acc, "accepted_array": acc_arr, "accepted_geodesic": acc_g, "wrongdim": wrongdim,
+            "normal": normal, "array_normal": arr_normal, "wall": g[1].tolist()}
 
 
 def judge_o_nonrefl(inp, obs, lr):
     tags = {"kind": inp["kind"], "dim": inp["dim"]}
     if "exc" in obs:
         return {"expected": "hyperplane or GeometryError", "observed": obs, "tags": dict(tags, exc=obs["exc"])}
-    want = inp["kind"] == "refl"
+    want = inp["kind"] in ("refl", "neg_refl")     # both projective representatives +-R of a reflection
     if obs["accepted"] != want or (obs["accepted_geodesic"] is not None and obs["accepted_geodesic"] != want):
         return {"expected": "reflections accepted, non-reflections rejected with GeometryError", "observed": obs, "tags": tags}
+    if obs["accepted_array"] != want:
+        return {"expected": "the same decision for the bare array", "observed": obs, "tags": dict(tags, input="ndarray")}
+    if want:
+        d = np.array(obs["wall"])       # the reflection is g^-1 L g with L the reflection in e1: its wall is (e1 g)^perp
+        d = d / np.linalg.norm(d)
+        for key in ("normal", "array_normal"):
+            v = np.array(obs[key])
+            v = v / np.linalg.norm(v)
+            if min(np.abs(v - d).max(), np.abs(v + d).max()) > 1e-6 * (1 + np.abs(np.array(inp["g"])).max() ** 2):
+                return {"expected": {"normal parallel to": d.tolist()}, "observed": v.tolist(), "tags": dict(tags, what=key)}
     if obs["wrongdim"] == "accepted":
         return {"expected": "Geodesic.from_reflection rejects dimension != 2", "observed": obs, "tags": dict(tags, what="dimension")}
     return None
@@ -521,9 +572,11 @@ def judge_o_nonrefl(inp, obs, lr):
 def gen_o_fixed(rng, n):
     for _ in range(n):
         dim = rng.choice([2, 2, 3, 4])
-        kind = rng.choice(["rot", "lox", "lox", "par"])
-        yield {"dim": dim, "kind": kind, "g": G.float_iso(rng, dim).tolist(), "a": rng.uniform(0.3, 2.8),
-               "t": rng.uniform(0.3, 3.0) * rng.choice([-1, 1]), "col": rng.random() < 0.3}
+        kind = rng.choice(["rot", "lox", "lox", "par", "screw"] if dim >= 3 else ["rot", "lox", "lox", "par"])
+        # both projective representatives +-M of the isometry, negative parameters of the standard_* constructors
+        yield {"dim": dim, "kind": kind, "g": G.float_iso(rng, dim).tolist(), "a": rng.uniform(0.3, 2.8) * rng.choice([-1, 1]),
+               "t": rng.uniform(0.3, 3.0) * rng.choice([-1, 1]), "col": rng.random() < 0.3,
+               "sign": rng.choice([1, 1, -1]), "neg_param": rng.random() < 0.3}
 
 
 def run_o_fixed(inp):
@@ -532,10 +585,12 @@ def run_o_fixed(inp):
     if inp["kind"] == "rot":
         L = np.array(H.Isometry.standard_rotation(inp["a"], dimension=dim).proj_data, dtype=float)
     elif inp["kind"] == "lox":
-        L = np.array(H.Isometry.standard_loxodromic(dim, math.exp(inp["t"])).proj_data, dtype=float)
+        # a negative parameter gives the other projective representative of the same translation
+        par = math.exp(inp["t"]) * (-1 if inp.get("neg_param") else 1)
+        L = np.array(H.Isometry.standard_loxodromic(dim, par).proj_data, dtype=float)
     else:
-        L = float_std(dim, "par", 0, inp["t"])
-    M = np.linalg.inv(g) @ L @ g
+        L = float_std(dim, inp["kind"], inp["a"], inp["t"])
+    M = inp.get("sign", 1) * (np.linalg.inv(g) @ L @ g)
     iso = H.Isometry(M.T.copy(), column_vectors=True) if inp["col"] else H.Isometry(M.copy())
     fp = np.array(iso.fixed_point().proj_data, dtype=float)
     pair = np.array(iso.fixed_point_pair().proj_data, dtype=float)
@@ -549,7 +604,7 @@ def run_o_fixed(inp):
         w = v @ M
         return [float(np.abs(np.outer(w, v) - np.outer(v, w)).max()), float(G.mink(v, v))]
     out["plain"] = {"fp": _res(fp2), "pair0": _res(pair2[0]), "pair1": _res(pair2[1]), "pair_shape": list(pair2.shape)}
-    if inp["kind"] == "lox":
+    if inp["kind"] in ("lox", "screw"):
         out["axis"] = np.array(iso.axis().proj_data, dtype=float).tolist()
         att = np.array([1.0, 1.0 if inp["t"] > 0 else -1.0] + [0.0] * (dim - 1)) @ g
         rep = np.array([1.0, -1.0 if inp["t"] > 0 else 1.0] + [0.0] * (dim - 1)) @ g
@@ -564,15 +619,17 @@ def lean_o_fixed(inp, obs):
         return []
     M = [[Q.qs(x) for x in r] for r in obs["M"]]
     ops = [{"op": "c15.fixed_residual", "M": M, "v": [Q.qs(x) for x in obs["fp"]]}]
-    if inp["kind"] == "lox":
+    if inp["kind"] in ("lox", "screw"):
         ops += [{"op": "c15.fixed_residual", "M": M, "v": [Q.qs(x) for x in row]} for row in obs["pair"]]
     return ops
 
 
 def judge_o_fixed(inp, obs, lr):
     dim, kind = inp["dim"], inp["kind"]
+    loxlike = kind in ("lox", "screw")
     # eigenvalue 1 has an eigenspace of dimension >= 2 (containing spacelike fixed vectors): known finding
-    tags = {"kind": kind, "dim": dim, "call_site": "Isometry.fixed_point", "eigenspace_one_dim_ge_2": kind in ("rot", "par") and dim >= 3}
+    tags = {"kind": kind, "dim": dim, "call_site": "Isometry.fixed_point", "eigenspace_one_dim_ge_2": kind in ("rot", "par") and dim >= 3,
+            "sign": inp.get("sign", 1), "neg_param": bool(inp.get("neg_param"))}
     if "exc" in obs:
         return {"expected": "fixed point", "observed": obs, "tags": dict(tags, exc=obs["exc"])}
     e = drv_err(lr)
@@ -589,14 +646,14 @@ def judge_o_fixed(inp, obs, lr):
         return {"expected": "interior point for an elliptic isometry", "observed": {"norm": norm}, "tags": dict(tags, what="interior")}
     pl = obs["plain"]
     if not (pl["fp"][0] <= 1e-6 * scale and pl["fp"][1] <= 1e-6 and pl["pair0"][0] <= 1e-6 * scale and pl["pair0"][1] <= 1e-6
-            and (kind != "lox" or pl["pair1"][0] <= 1e-5 * scale)):
+            and (not loxlike or pl["pair1"][0] <= 1e-5 * scale)):
         return {"expected": "fixed_point(max_eigval=False) / fixed_point_pair(sort_eigvals=False): fixed points, the first in the closed ball",
                 "observed": pl, "tags": dict(tags, what="unsorted option")}
-    if kind == "lox" and not (abs(pl["pair1"][1]) <= 1e-6):
+    if loxlike and not (abs(pl["pair1"][1]) <= 1e-6):
         return {"expected": "loxodromic, unsorted option: both reported points are the ideal endpoints", "observed": pl, "tags": dict(tags, what="unsorted pair")}
     if kind == "par" and not G.proj_equal(obs["fp"], obs["par_fix"], 1e-4):
         return {"expected": {"the ideal fixed point": obs["par_fix"]}, "observed": obs["fp"], "tags": dict(tags, what="parabolic")}
-    if kind == "lox":
+    if loxlike:
         for k, rr in enumerate(lr[1:]):
             q = rr["ok"]
             if not (float(F(q["cross"])) <= 1e-6 * scale and abs(float(F(q["norm"]))) <= 1e-6):
@@ -640,8 +697,10 @@ def gen_o_batch(rng, n):
             elif what == "mixed_reject":
                 kind = rng.choice(["refl", "refl", "rot", "lox", "id", "two_refl", "point_refl_neg"])
             else:
-                kind = rng.choice(["lox", "lox", "lox", "rot", "par"])
-            units.append({"kind": kind, "g": g.tolist(), "a": rng.uniform(0.3, 2.8), "t": rng.uniform(0.3, 2.5) * rng.choice([-1, 1])})
+                # heterogeneous batches: elliptic, parabolic, loxodromic, screw motions (no eigenvalue 1), either representative +-M
+                kind = rng.choice(["lox", "lox", "rot", "par", "screw"] if dim >= 3 else ["lox", "lox", "lox", "rot", "par"])
+            units.append({"kind": kind, "g": g.tolist(), "a": rng.uniform(0.3, 2.8) * rng.choice([-1, 1]), "t": rng.uniform(0.3, 2.5) * rng.choice([-1, 1]),
+                          "sign": rng.choice([1, 1, -1]) if what == "fixed" else 1})
         if what == "mixed_reject" and all(u["kind"] == "refl" for u in units):
             units[rng.randrange(k)]["kind"] = "rot"
         yield {"dim": dim, "what": what, "units": units}
@@ -649,7 +708,7 @@ def gen_o_batch(rng, n):
 
 def run_o_batch(inp):
     dim = inp["dim"]
-    mats = np.array([_conj(np.array(u["g"]), float_std(dim, "rot" if u["kind"] == "rot" else u["kind"], u["a"], u["t"])) for u in inp["units"]])
+    mats = np.array([u.get("sign", 1) * _conj(np.array(u["g"]), float_std(dim, u["kind"], u["a"], u["t"])) for u in inp["units"]])
     iso = H.Isometry(mats.copy())
     k = len(mats)
     out = {"k": k}
@@ -688,7 +747,13 @@ def run_o_batch(inp):
                 w = v @ M
                 return float(np.abs(np.outer(w, v) - np.outer(v, w)).max()), float(G.mink(v, v))
             rec = {"j": j, "kind": u["kind"], "fp": resid(fp[j])}
-            if u["kind"] == "lox":
+            # the member on its own (a single Isometry with the same matrix) must give the same answer
+            single = H.Isometry(M.copy())
+            sfp = np.real(np.array(single.fixed_point().proj_data, dtype=complex)).astype(float)
+            spair = np.real(np.array(single.fixed_point_pair().proj_data, dtype=complex)).astype(float)
+            rec["same_as_single"] = bool(G.proj_equal(fp[j], sfp, 1e-6) and G.proj_equal(pair[j, 0], spair[0], 1e-6)
+                                         and (u["kind"] not in ("lox", "screw") or G.proj_equal(pair[j, 1], spair[1], 1e-6)))
+            if u["kind"] in ("lox", "screw"):
                 sgn = 1.0 if u["t"] > 0 else -1.0
                 att = np.array([1.0, sgn] + [0.0] * (dim - 1)) @ g
                 rep = np.array([1.0, -sgn] + [0.0] * (dim - 1)) @ g
@@ -725,7 +790,9 @@ def judge_o_batch(inp, obs, lr):
             return {"expected": "every unit: reported point fixed by its own isometry, in the closed ball", "observed": rec, "tags": dict(tags, check="fixed", kind=rec["kind"])}
         if rec["kind"] == "rot" and not norm < -1e-9:
             return {"expected": "elliptic unit: interior point", "observed": rec, "tags": dict(tags, check="interior")}
-        if rec["kind"] == "lox" and not rec["order"]:
+        if not rec.get("same_as_single", True):
+            return {"expected": "every member of the array answers like the same isometry on its own", "observed": rec, "tags": dict(tags, check="member vs single", kinds=kinds)}
+        if rec["kind"] in ("lox", "screw") and not rec["order"]:
             return {"expected": "loxodromic unit: its own two ideal endpoints, attracting first", "observed": rec, "tags": dict(tags, check="order")}
     return None
 
@@ -738,6 +805,22 @@ def gen_o_subrefl(rng, n):
         cnt = int(np.prod(shape)) if shape else 1
         units = []
         for _ in range(cnt):
+            if rng.random() < 0.25:
+                # a wall through the origin of the ball (for a geodesic: antipodal endpoints)
+                nu = np.array(G.fsphere(rng, dim))
+                while True:
+                    ks = []
+                    for _ in range(dim):
+                        x = np.array(G.fsphere(rng, dim))
+                        x = x - np.dot(x, nu) * nu
+                        ks.append(x / np.linalg.norm(x))
+                    ks = np.array(ks)
+                    if dim == 2:
+                        ks[1] = -ks[0]
+                    if np.linalg.svd(np.vstack([ks, nu]), compute_uv=False)[-1] > 0.2 or dim == 2:
+                        break
+                units.append(ks.tolist())
+                continue
             while True:
                 ks = np.array([G.fsphere(rng, dim) for _ in range(dim)])
                 T = ks[1:] - ks[0]
@@ -804,12 +887,13 @@ HI_OPS = ["query", "query", "left", "right", "setitem", "set", "flatten", "inv",
 
 
 def _hi_unit(rng, dim):
-    kind = rng.choice(["lox", "lox", "lox", "rot", "par"])
-    return {"kind": kind, "g": G.float_iso(rng, dim).tolist(), "a": rng.uniform(0.4, 2.7), "t": rng.uniform(0.4, 2.0) * rng.choice([-1, 1])}
+    kind = rng.choice(["lox", "lox", "rot", "par", "screw"] if dim >= 3 else ["lox", "lox", "lox", "rot", "par"])
+    return {"kind": kind, "g": G.float_iso(rng, dim).tolist(), "a": rng.uniform(0.4, 2.7) * rng.choice([-1, 1]),
+            "t": rng.uniform(0.4, 2.0) * rng.choice([-1, 1]), "sign": rng.choice([1, 1, 1, -1])}
 
 
 def _hi_mat(dim, u):
-    return _conj(np.array(u["g"]), float_std(dim, u["kind"], u["a"], u["t"]))
+    return u.get("sign", 1) * _conj(np.array(u["g"]), float_std(dim, u["kind"], u["a"], u["t"]))
 
 
 def gen_o_hist_iso(rng, n):
